@@ -35,6 +35,9 @@ func isMacroDefinition(node ast.Node) bool {
 	if !ok {
 		return false
 	}
+	if _, ok = exp.Left.(*ast.Identifier); !ok {
+		return false // a[0] = macro(){...}, m.x = macro(){...}: not a definition (addMacro needs a name).
+	}
 	_, ok = exp.Right.(*ast.MacroLiteral)
 	return ok
 }
